@@ -2161,71 +2161,64 @@ theorem getChain_clean (s : Sectors) (start : Nat) (fats : List Nat) (rd : Bytes
   have := chainLoop_clean fats fats.length start s rd 0
   split <;> simp_all
 
-/-- what the chain loop accumulates never exceeds the file length the reader was given -/
-theorem chainLoop_alloc (fats : List Nat) :
-    ∀ (rem id : Nat) (s : Sectors) (rd : Bytes) (acc : Nat) (x : Bytes) (s' : Sectors) (rd' : Bytes),
-      acc ≤ s.limit → Sectors.chainLoop fats rem id s rd acc = .ok (x, s', rd') → acc + x.length ≤ s.limit := by
-  intro rem
-  induction rem with
-  | zero =>
-    intro id s rd acc x s' rd' hacc h
-    unfold Sectors.chainLoop at h
-    split at h
-    · injection h with h; injection h with h0 _; subst h0; simpa using hacc
-    · cases h
-  | succ rem ih =>
-    intro id s rd acc x s' rd' hacc h
-    unfold Sectors.chainLoop at h
-    split at h
-    · injection h with h; injection h with h0 _; subst h0; simpa using hacc
-    · split at h
-      · cases h
-      · dsimp only at h
-        split at h
-        · cases h
-        · rename_i hchk
-          split at h
-          · rename_i rest s'' rd'' heq
-            injection h with h; injection h with h0 _
-            have := ih _ _ _ _ _ _ _ (by rw [Sectors.get_limit]; omega) heq
-            rw [Sectors.get_limit] at this
-            subst h0
-            simp only [List.length_append]; omega
-          · cases h
-          · cases h
-          · cases h
-
+/-- what `get_chain` returns never exceeds what has been read of the file (the final cache) -/
 theorem getChain_alloc (s : Sectors) (start : Nat) (fats : List Nat) (rd : Bytes) (len : Nat)
     (x : Bytes) (s' : Sectors) (rd' : Bytes) (h : s.getChain start fats rd len = .ok (x, s', rd')) :
-    x.length ≤ s.limit := by
-  unfold Sectors.getChain at h
-  split at h
-  · rename_i chain s'' rd'' heq
-    injection h with h; injection h with h0 _
-    have := chainLoop_alloc fats _ _ _ _ 0 _ _ _ (Nat.zero_le _) heq
-    subst h0
-    split
-    · rw [List.length_take]; omega
-    · omega
-  · cases h
-  · cases h
-  · cases h
+    x.length ≤ s'.data.length ∧ s'.data.length + rd'.length = s.data.length + rd.length :=
+  ⟨(getChain_params s start fats rd len x s' rd' h).2.2.2, (getChain_params s start fats rd len x s' rd' h).2.1⟩
 
-theorem difatLoop_clean (rem id : Nat) (difat : List Nat) (s : Sectors) (rd : Bytes) :
-    (∀ m, difatLoop rem id difat s rd ≠ .panic m) ∧ difatLoop rem id difat s rd ≠ .outOfFuel := by
-  induction rem generalizing id difat s rd with
+theorem difatLoop_no_panic (fuel id : Nat) (difat : List Nat) (s : Sectors) (rd : Bytes) (count : Nat) (m : String) :
+    difatLoop fuel id difat s rd count ≠ .panic m := by
+  induction fuel generalizing id difat s rd count with
   | zero => unfold difatLoop; split <;> simp
-  | succ rem ih =>
+  | succ fuel ih =>
     unfold difatLoop
     split
     · dsimp only
       split
       · simp
-      · exact ih _ _ _ _
+      · split
+        · simp
+        · exact ih _ _ _ _ _
     · simp
 
-theorem loadFats_clean (ids : List Nat) (s : Sectors) (rd : Bytes) (lim acc : Nat) :
-    (∀ m, loadFats ids s rd lim acc ≠ .panic m) ∧ loadFats ids s rd lim acc ≠ .outOfFuel := by
+/-- the DIFAT walk is bounded by the bytes the reader can deliver: `count * size ≤ data.len() ≤ N` -/
+theorem difatLoop_fuel : ∀ (fuel id : Nat) (difat : List Nat) (s : Sectors) (rd : Bytes) (count N : Nat),
+    0 < s.size → s.data.length + rd.length = N → count * s.size ≤ N → N < (count + fuel) * s.size →
+    difatLoop fuel id difat s rd count ≠ .outOfFuel := by
+  intro fuel
+  induction fuel with
+  | zero =>
+    intro id difat s rd count N hss hN hle hlt
+    unfold difatLoop
+    split
+    · exfalso
+      rw [Nat.add_zero] at hlt; omega
+    · simp
+  | succ fuel ih =>
+    intro id difat s rd count N hss hN hle hlt
+    unfold difatLoop
+    split
+    · dsimp only
+      split
+      · simp
+      · split
+        · simp
+        · rename_i hchk
+          apply ih _ _ _ _ _ N
+          · rw [(Sectors.get_spec s id rd _ rfl).2.2]; exact hss
+          · rw [Sectors.get_conserve]; exact hN
+          · rw [(Sectors.get_spec s id rd _ rfl).2.2]
+            have hc := Sectors.get_conserve s id rd
+            omega
+          · rw [(Sectors.get_spec s id rd _ rfl).2.2]
+            have : count + 1 + fuel = count + (fuel + 1) := by omega
+            rw [this]; exact hlt
+    · simp
+
+
+theorem loadFats_clean (ids : List Nat) (s : Sectors) (rd : Bytes) (acc : Nat) :
+    (∀ m, loadFats ids s rd acc ≠ .panic m) ∧ loadFats ids s rd acc ≠ .outOfFuel := by
   induction ids generalizing s rd acc with
   | nil => simp [loadFats]
   | cons id ids ih =>
@@ -2238,19 +2231,20 @@ theorem loadFats_clean (ids : List Nat) (s : Sectors) (rd : Bytes) (lim acc : Na
         split <;> simp_all
     · exact ih s rd acc
 
-/-- the allocation table never has more than `lim` (= file length / 4) entries -/
-theorem loadFats_alloc : ∀ (ids : List Nat) (s : Sectors) (rd : Bytes) (lim acc : Nat)
-    (x : List Nat) (s' : Sectors) (rd' : Bytes), acc ≤ lim →
-    loadFats ids s rd lim acc = .ok (x, s', rd') → acc + x.length ≤ lim ∧ s'.limit = s.limit ∧ s'.size = s.size := by
+/-- the allocation table never takes more room than what has been read of the file -/
+theorem loadFats_params : ∀ (ids : List Nat) (s : Sectors) (rd : Bytes) (acc : Nat)
+    (x : List Nat) (s' : Sectors) (rd' : Bytes), loadFats ids s rd acc = .ok (x, s', rd') →
+    s'.size = s.size ∧ s'.data.length + rd'.length = s.data.length + rd.length ∧ s.data.length ≤ s'.data.length ∧
+    (acc * 4 ≤ s.data.length → (acc + x.length) * 4 ≤ s'.data.length) := by
   intro ids
   induction ids with
   | nil =>
-    intro s rd lim acc x s' rd' hacc h
+    intro s rd acc x s' rd' h
     simp only [loadFats] at h
-    injection h with h; injection h with h0 h; injection h with h1 _; subst h0 h1
-    exact ⟨by simpa using hacc, rfl, rfl⟩
+    injection h with h; injection h with h0 h; injection h with h1 h2; subst h0 h1 h2
+    exact ⟨rfl, rfl, Nat.le_refl _, fun ha => by simpa using ha⟩
   | cons id ids ih =>
-    intro s rd lim acc x s' rd' hacc h
+    intro s rd acc x s' rd' h
     unfold loadFats at h
     split at h
     · dsimp only at h
@@ -2258,14 +2252,18 @@ theorem loadFats_alloc : ∀ (ids : List Nat) (s : Sectors) (rd : Bytes) (lim ac
       · cases h
       · split at h
         · rename_i rest s'' rd'' heq
-          injection h with h; injection h with h0 h; injection h with h1 _
-          have := ih _ _ _ _ _ _ _ (by omega) heq
-          subst h0 h1
-          refine ⟨by simp only [List.length_append]; omega, this.2.1, this.2.2.trans (Sectors.get_spec s id rd _ rfl).2.2⟩
+          injection h with h; injection h with h0 h; injection h with h1 h2
+          obtain ⟨p1, p2, p3, p4⟩ := ih _ _ _ _ _ _ heq
+          subst h0 h1 h2
+          refine ⟨p1.trans (Sectors.get_spec s id rd _ rfl).2.2, by rw [p2]; exact Sectors.get_conserve s id rd,
+            Nat.le_trans (Sectors.get_data_mono s id rd) p3, ?_⟩
+          intro _
+          have := p4 (by omega)
+          simp only [List.length_append]; omega
         · cases h
         · cases h
         · cases h
-    · exact ih _ _ _ _ _ _ _ hacc h
+    · exact ih _ _ _ _ _ _ h
 
 theorem chunksAux_len (n : Nat) : ∀ (f : Nat) (l : Bytes), ∀ x ∈ chunksAux n f l, x.length = n := by
   intro f
@@ -2310,13 +2308,30 @@ theorem fromReader_clean (rd : Bytes) :
   split; · simp
   split <;> simp
 
-/-- `Cfb::new` is total on arbitrary bytes: it returns `Ok` or `Err`, never panics, never runs out of fuel;
-    and whatever it returns respects the file length: the allocation table has at most `len / 4` entries, the
-    mini stream at most `len` bytes, both sector caches carry the limit `len` -/
+/-- the header fixes a positive sector size and consumes part of the reader -/
+theorem fromReader_ok (rd : Bytes) (h : Header) (d : List Nat) (rd' : Bytes)
+    (hr : Header.fromReader rd = .ok (h, d, rd')) : 0 < h.sectorSize ∧ rd'.length ≤ rd.length := by
+  unfold Header.fromReader at hr
+  split at hr; · cases hr
+  dsimp only at hr
+  split at hr; · cases hr
+  split at hr; · cases hr
+  split at hr; · cases hr
+  split at hr; · cases hr
+  injection hr with hr; injection hr with h0 hr; injection hr with _ h2
+  subst h0 h2
+  refine ⟨by dsimp only; split <;> omega, ?_⟩
+  split <;> simp only [List.length_drop] <;> omega
+
+/-- `Cfb::new` is total on arbitrary bytes: it returns `Ok` or `Err`, never panics, never runs out of fuel
+    (whatever `len` hint is given); and what it returns is bounded by what was read of the file: the allocation
+    table takes at most as many bytes as the sector cache, so does the mini stream, and cache plus unread bytes
+    are at most the file -/
 theorem new_clean (file : Bytes) (len : Nat) :
     (∀ m, Cfb.new file len ≠ .panic m) ∧ Cfb.new file len ≠ .outOfFuel ∧
     ∀ c rd, Cfb.new file len = .ok (c, rd) →
-      c.fats.length ≤ len / 4 ∧ c.mini.data.length ≤ len ∧ c.sectors.limit = len ∧ c.mini.limit = len := by
+      c.fats.length * 4 ≤ c.sectors.data.length ∧ c.mini.data.length ≤ c.sectors.data.length ∧
+      c.sectors.data.length + rd.length ≤ file.length := by
   unfold Cfb.new
   have c1 := fromReader_clean file
   cases h1 : Header.fromReader file with
@@ -2325,25 +2340,32 @@ theorem new_clean (file : Bytes) (len : Nat) :
   | outOfFuel => exact absurd h1 c1.2
   | ok v1 =>
     obtain ⟨h, difat0, rd⟩ := v1
+    obtain ⟨hss, hrd⟩ := fromReader_ok file h difat0 rd h1
     simp only [Res.bind_ok]
-    have c2 := difatLoop_clean (len / h.sectorSize + 1) h.difatStart difat0 ⟨[], h.sectorSize, len⟩ rd
-    cases h2 : difatLoop (len / h.sectorSize + 1) h.difatStart difat0 ⟨[], h.sectorSize, len⟩ rd with
+    have c2f := difatLoop_fuel (file.length + 1) h.difatStart difat0 ⟨[], h.sectorSize⟩ rd 0 rd.length hss
+      (by simp) (by simp) (by
+        simp only [Nat.zero_add]
+        have : file.length + 1 ≤ (file.length + 1) * h.sectorSize := Nat.le_mul_of_pos_right _ hss
+        omega)
+    cases h2 : difatLoop (file.length + 1) h.difatStart difat0 ⟨[], h.sectorSize⟩ rd 0 with
     | err e => simp
-    | panic m => exact absurd h2 (c2.1 m)
-    | outOfFuel => exact absurd h2 c2.2
+    | panic m => exact absurd h2 (difatLoop_no_panic _ _ _ _ _ _ m)
+    | outOfFuel => exact absurd h2 c2f
     | ok v2 =>
       obtain ⟨difat, s1, rd1⟩ := v2
-      have l1 : s1.limit = len := (difatLoop_params _ _ _ _ _ _ _ _ h2).2
+      obtain ⟨_, q1, _⟩ := difatLoop_params _ _ _ _ _ _ _ _ _ h2
+      simp only [List.length_nil, Nat.zero_add] at q1
       simp only [Res.bind_ok]
-      have c3 := loadFats_clean difat s1 rd1 (len / 4) 0
-      cases h3 : loadFats difat s1 rd1 (len / 4) 0 with
+      have c3 := loadFats_clean difat s1 rd1 0
+      cases h3 : loadFats difat s1 rd1 0 with
       | err e => simp
       | panic m => exact absurd h3 (c3.1 m)
       | outOfFuel => exact absurd h3 c3.2
       | ok v3 =>
         obtain ⟨fats, s2, rd2⟩ := v3
-        obtain ⟨a3, l2, _⟩ := loadFats_alloc _ _ _ _ _ _ _ _ (Nat.zero_le _) h3
-        rw [l1] at l2
+        obtain ⟨_, q2, _, a2⟩ := loadFats_params _ _ _ _ _ _ _ h3
+        have a2' := a2 (by omega)
+        simp only [Nat.zero_add] at a2'
         simp only [Res.bind_ok]
         have c4 := getChain_clean s2 h.dirStart fats rd2 (h.dirLen * h.sectorSize)
         cases h4 : s2.getChain h.dirStart fats rd2 (h.dirLen * h.sectorSize) with
@@ -2352,7 +2374,7 @@ theorem new_clean (file : Bytes) (len : Nat) :
         | outOfFuel => exact absurd h4 c4.2
         | ok v4 =>
           obtain ⟨dirBytes, s3, rd3⟩ := v4
-          have l3 : s3.limit = len := by rw [(getChain_params _ _ _ _ _ _ _ _ h4).2, l2]
+          obtain ⟨_, q3, m3, _⟩ := getChain_params _ _ _ _ _ _ _ _ h4
           simp only [Res.bind_ok]
           obtain ⟨dirs, hdirs⟩ := parseDirs_ok h.sectorSize (chunksExact 128 dirBytes) (chunksAux_len 128 _ _)
           rw [hdirs]
@@ -2369,9 +2391,7 @@ theorem new_clean (file : Bytes) (len : Nat) :
               | outOfFuel => exact absurd h5 c5.2
               | ok v5 =>
                 obtain ⟨ms, s4, rd4⟩ := v5
-                have l4 : s4.limit = len := by rw [(getChain_params _ _ _ _ _ _ _ _ h5).2, l3]
-                have a5 := getChain_alloc _ _ _ _ _ _ _ _ h5
-                rw [l3] at a5
+                obtain ⟨_, q4, m4, a4⟩ := getChain_params _ _ _ _ _ _ _ _ h5
                 simp only [Res.bind_ok]
                 have c6 := getChain_clean s4 h.miniFatStart fats rd4 (h.miniFatLen * h.sectorSize)
                 cases h6 : s4.getChain h.miniFatStart fats rd4 (h.miniFatLen * h.sectorSize) with
@@ -2380,16 +2400,18 @@ theorem new_clean (file : Bytes) (len : Nat) :
                 | outOfFuel => exact absurd h6 c6.2
                 | ok v6 =>
                   obtain ⟨mf, s5, rd5⟩ := v6
-                  have l5 : s5.limit = len := by rw [(getChain_params _ _ _ _ _ _ _ _ h6).2, l4]
+                  obtain ⟨_, q5, m5, _⟩ := getChain_params _ _ _ _ _ _ _ _ h6
                   simp only [Res.bind_ok]
                   refine ⟨by simp, by simp, ?_⟩
                   intro c rd' hc
-                  injection hc with hc; injection hc with hc _; subst hc
-                  exact ⟨by simpa using a3, a5, l5, rfl⟩
+                  injection hc with hc; injection hc with hc hr; subst hc hr
+                  dsimp only
+                  refine ⟨by omega, by omega, by omega⟩
             · refine ⟨by simp, by simp, ?_⟩
               intro c rd' hc
-              injection hc with hc; injection hc with hc _; subst hc
-              exact ⟨by simpa using a3, by simp, l3, rfl⟩
+              injection hc with hc; injection hc with hc hr; subst hc hr
+              dsimp only
+              refine ⟨by omega, by simp, by omega⟩
 
 /-- `get_stream` never unwinds and never runs out of fuel, whatever the state and the allocation tables -/
 theorem getStream_clean (c : CfbSt) (name : List Char) (rd : Bytes) :
@@ -2404,11 +2426,13 @@ theorem getStream_clean (c : CfbSt) (name : List Char) (rd : Bytes) :
     · have := getChain_clean c.sectors d.start c.fats rd d.len
       split <;> simp_all
 
-/-- what `get_stream` returns is never longer than the file length the reader was given, and the limits stay -/
-theorem getStream_alloc (c : CfbSt) (name : List Char) (rd : Bytes) (len : Nat)
-    (h1 : c.sectors.limit = len) (h2 : c.mini.limit = len) (x : Bytes) (c' : CfbSt) (rd' : Bytes)
+/-- bytes held by a reader state: both caches and what is still unread -/
+def CfbSt.bytes (c : CfbSt) (rd : Bytes) : Nat := c.sectors.data.length + c.mini.data.length + rd.length
+
+/-- `get_stream` conserves the bytes held and never returns more than that -/
+theorem getStream_alloc (c : CfbSt) (name : List Char) (rd : Bytes) (x : Bytes) (c' : CfbSt) (rd' : Bytes)
     (h : getStream c name rd = .ok (x, c', rd')) :
-    x.length ≤ len ∧ c'.sectors.limit = len ∧ c'.mini.limit = len := by
+    x.length ≤ c.bytes rd ∧ c'.bytes rd' = c.bytes rd := by
   unfold getStream at h
   split at h
   · cases h
@@ -2416,19 +2440,19 @@ theorem getStream_alloc (c : CfbSt) (name : List Char) (rd : Bytes) (len : Nat)
     split at h
     · split at h
       · rename_i y m' rd'' heq
-        injection h with h; injection h with h0 h; injection h with h3 _; subst h0 h3
-        have a := getChain_alloc _ _ _ _ _ _ _ _ heq
-        have p := (getChain_params _ _ _ _ _ _ _ _ heq).2
-        exact ⟨by rw [h2] at a; exact a, h1, by simpa [h2] using p⟩
+        injection h with h; injection h with h0 h; injection h with h3 h4; subst h0 h3 h4
+        obtain ⟨_, q, _, a⟩ := getChain_params _ _ _ _ _ _ _ _ heq
+        simp only [CfbSt.bytes]
+        exact ⟨by omega, by omega⟩
       · cases h
       · cases h
       · cases h
     · split at h
       · rename_i y s' rd'' heq
-        injection h with h; injection h with h0 h; injection h with h3 _; subst h0 h3
-        have a := getChain_alloc _ _ _ _ _ _ _ _ heq
-        have p := (getChain_params _ _ _ _ _ _ _ _ heq).2
-        exact ⟨by rw [h1] at a; exact a, by simpa [h1] using p, h2⟩
+        injection h with h; injection h with h0 h; injection h with h3 h4; subst h0 h3 h4
+        obtain ⟨_, q, _, a⟩ := getChain_params _ _ _ _ _ _ _ _ heq
+        simp only [CfbSt.bytes]
+        exact ⟨by omega, by omega⟩
       · cases h
       · cases h
       · cases h
